@@ -352,6 +352,15 @@ def run_check(prop, tier, seed):
         ck.cov['cegar_refinements'] = getattr(pr2, 'refinements', 0)
 
     ck.absorb(pr)
+    if prop == 'C14':
+        # the calls a client actually makes go through the two wrappers (C library and Rust client): failing cleanly includes that a
+        # failure is reported as the documented kind and does not outlive its cause on the same context
+        try:
+            from .abi_layout import wrappers_for_c14
+            wrappers_for_c14(ck, prog, seed)
+            ck.cov['functions_encoded'] = list(ck.cov['functions_encoded']) + ['clockbound_now (C library)', 'ClockBoundClient::now', 'From<ShmError> for clockbound_err / ClockBoundError']
+        except EngineError as e:
+            ck.inconclusive.append('client wrappers: %s' % e)
     if prop == 'C05' and tier == 'thorough':
         fp_exact_crosscheck(ck, seed)
     ck.cov['cegar_refinements'] = ck.cov.get('cegar_refinements', 0) + getattr(pr, 'refinements', 0)
